@@ -113,17 +113,33 @@ Theorem C16_input_partial : forall N hist p tv i,
 Proof. exact pop_input_is_exp_input. Qed.
 Print Assumptions C16_input_partial.
 
+(* HEADLINE — what `run` returns.  For ANY unit dynamics U, any number of populations / units / connections, any step
+   size and ANY number of rows, the Euler trajectory of the population circuit is the Euler trajectory of the explicit
+   network (one scalar edge per non-zero matrix entry, parameter i on unit i, per-edge discrete delays), provided the
+   decidable guard holds: per-connection guards, none of the remaining loud classes, no DYNAMIC coupling template
+   (edge states: covered per step by C16_dynamic_coupling_state/_output and C16_input_partial, and by the
+   correspondence run).  Proof: shape invariant of the state along the run + C16_input_partial at every step. *)
+Theorem C16_run_partial : forall U N units dt rows,
+  wf_net N = true -> wf_units N units = true -> traj_guard N = true ->
+  pop_run U N units dt rows = Some (exp_run 0 U N units dt rows).
+Proof. exact pop_run_is_exp_run. Qed.
+Print Assumptions C16_run_partial.
+
+Example C16_run_nonvacuous : wf_net N_example = true /\ wf_units N_example units_example = true /\ traj_guard N_example = true.
+Proof. repeat split; vm_compute; reflexivity. Qed.
+Print Assumptions C16_run_nonvacuous.
+
 (* The full-strength statement (every well-formed population circuit runs like its explicit network) is FALSE of the
    faithful model (the refutations of the classes F2 / F3 carry the hypothesis that the repair switch of Population.v is off); it stays visible here and is refuted by computed witnesses that also fail on the real code
    (corpus/C16). *)
 Definition C16_full_statement : Prop := forall N units dt rows, wf_net N = true -> wf_units N units = true ->
   pop_run unit_poly N units dt rows = Some (exp_run 0 unit_poly N units dt rows).
 
-Theorem C16_refuted_scalar_coupling : fixed_F3 = false ->
+Theorem C16_scalar_coupling_before_fix : fixed_F3 = false ->
   wf_net N_scalar_coupling = true /\ g_scalar_plain N_scalar_coupling = false /\
   pop_run unit_poly N_scalar_coupling units22 (mkq 1 4) 2 <> Some (exp_run 0 unit_poly N_scalar_coupling units22 (mkq 1 4) 2).
-Proof. exact refuted_scalar_coupling. Qed.
-Print Assumptions C16_refuted_scalar_coupling.
+Proof. exact scalar_coupling_before_fix. Qed.
+Print Assumptions C16_scalar_coupling_before_fix.
 
 Theorem C16_refuted_near_one :
   wf_net N_near_one = true /\ g_not_near_one N_near_one = false /\
@@ -131,20 +147,30 @@ Theorem C16_refuted_near_one :
 Proof. exact refuted_near_one. Qed.
 Print Assumptions C16_refuted_near_one.
 
-Theorem C16_refuted_post_name : fixed_F2 = false ->
+Theorem C16_post_name_before_fix : fixed_F2 = false ->
   wf_net N_post_name = true /\ g_post_name N_post_name = false /\
   pop_run unit_poly N_post_name units22 (mkq 1 4) 2 <> Some (exp_run 0 unit_poly N_post_name units22 (mkq 1 4) 2).
-Proof. exact refuted_post_name. Qed.
-Print Assumptions C16_refuted_post_name.
+Proof. exact post_name_before_fix. Qed.
+Print Assumptions C16_post_name_before_fix.
 
-(* loud classes: two connections from one population onto one target variable, a coupling template on a one-row /
-   one-column matrix, a source variable that is also the post-synaptic variable of a several-input target, a delayed
-   1 x 1 matrix — the population circuit raises *)
+(* `_before_fix`: the classes F1 / F2 / F3 / F6 as the code was before the repairs D55 / D56 (and the proposed repair of F1 + F6);
+   each carries the hypothesis that the corresponding switch of Population.v is off and is vacuous once it is on.  The
+   witnesses stay in corpus/C16 as regression cases. *)
+Theorem C16_dup_sources_before_fix : fixed_F1 = false ->
+  wf_net N_dup_sources = true /\ g_distinct_sources N_dup_sources = false /\ pop_run unit_poly N_dup_sources units22 (mkq 1 4) 2 = None.
+Proof. exact dup_sources_before_fix. Qed.
+Print Assumptions C16_dup_sources_before_fix.
+
+Theorem C16_alias_before_fix : fixed_F6 = false ->
+  wf_net N_alias = true /\ g_no_alias N_alias = false /\ pop_run unit_poly N_alias units22 (mkq 1 4) 2 = None.
+Proof. exact alias_before_fix. Qed.
+Print Assumptions C16_alias_before_fix.
+
+(* loud classes that remain: a coupling template on a one-row / one-column matrix, a delayed 1 x 1 matrix — the
+   population circuit raises *)
 Theorem C16_refuted_loud :
-  (wf_net N_dup_sources = true /\ g_distinct_sources N_dup_sources = false /\ pop_run unit_poly N_dup_sources units22 (mkq 1 4) 2 = None) /\
   (wf_net N_coupling_shape = true /\ g_coupling_shape N_coupling_shape = false /\
    pop_run unit_poly N_coupling_shape [st1 [mkq 1 2; mkq 1 1] [0; 0]; st1 (mkq 1 1 :: nil) (0 :: nil)] (mkq 1 4) 2 = None) /\
-  (wf_net N_alias = true /\ g_no_alias N_alias = false /\ pop_run unit_poly N_alias units22 (mkq 1 4) 2 = None) /\
   (wf_net N_delay_1x1 = true /\ g_delay_shape N_delay_1x1 = false /\
    pop_run unit_poly N_delay_1x1 [st1 (mkq 1 2 :: nil) (0 :: nil); st1 (mkq 1 1 :: nil) (0 :: nil)] (mkq 1 4) 2 = None).
 Proof. exact refuted_loud. Qed.
@@ -153,7 +179,8 @@ Print Assumptions C16_refuted_loud.
 Theorem C16_full_refuted : ~ C16_full_statement.
 Proof.
   intros H. destruct refuted_loud as ((Hwf & _ & Hnone) & _).
-  specialize (H N_dup_sources units22 (mkq 1 4) 2%nat Hwf eq_refl). rewrite Hnone in H. discriminate H.
+  specialize (H N_coupling_shape [st1 [mkq 1 2; mkq 1 1] [0; 0]; st1 (mkq 1 1 :: nil) (0 :: nil)] (mkq 1 4) 2%nat Hwf eq_refl).
+  rewrite Hnone in H. discriminate H.
 Qed.
 Print Assumptions C16_full_refuted.
 
